@@ -47,6 +47,19 @@ Plan gen_c07(uint64_t seed, int tier)
     p.cfg["logger" + std::to_string(i) + "_sinks"] = r.range(1, (1 << nsinks) - 1);
     p.cfg["logger" + std::to_string(i) + "_clock"] = clock;
   }
+  // one run in three: a further logger that only the main thread uses and that the main thread removes (asynchronously) somewhere
+  // before the stop / exit / signal — what it logged through it before is owed like everything else
+  int priv_logger = -1;
+  {
+    Rng rr(seed ^ 0x9e7c07);
+    if (rr.chance(1, 3))
+    {
+      priv_logger = nloggers;
+      p.cfg["nloggers"] = nloggers + 1;
+      p.cfg["logger" + std::to_string(priv_logger) + "_sinks"] = rr.range(1, (1 << nsinks) - 1);
+      p.cfg["logger" + std::to_string(priv_logger) + "_clock"] = clock;
+    }
+  }
   fix_timescale(p);
   // terminal event: none (stop/start cycles), exit(n), or one of the six handled signals (raised or really faulted)
   uint32_t tk = r.below(100);
@@ -148,6 +161,40 @@ Plan gen_c07(uint64_t seed, int tier)
     }
   }
   auto& main_ops = p.threads[0];
+  if (priv_logger >= 0)
+  {
+    Rng rr(seed ^ 0x9e7c08);
+    bool const ends_with_terminal = terminal && victim == 0 && !main_ops.empty();
+    size_t const limit = main_ops.size() - (ends_with_terminal ? 1 : 0);
+    size_t const rpos = rr.below(static_cast<uint32_t>(limit + 1));
+    std::vector<Op> rem;
+    uint32_t const shape = rr.below(4);
+    if (shape == 0)
+    {
+      // the backend is held somewhere in its loop while the removal happens
+      rem.push_back(Op{OP_STALL, -1, rr.pick<int64_t>({0, 1, 2, 15}), rr.range(1, 30), rr.pick<int64_t>({2000, 20000})});
+    }
+    else if (shape <= 2)
+    {
+      // the backend has gone idle (everything logged so far is written, perhaps not flushed) and is held between two of the
+      // loads of its idle round while the removal happens
+      // (armed, then given the time to get there, as in the membership-change fragments of C05 / C06)
+      rem.push_back(Op{OP_SLEEP, p.cfg["sleep_ns"] * 3 + 30000});
+      int64_t const reach = p.cfg["sleep_ns"] + p.cfg["delta_ns"] * 400;
+      rem.push_back(Op{OP_STALL, -1, 1 + 256 * 1, rr.range(1, 14), reach + p.cfg["delta_ns"] * rr.pick<int64_t>({300, 1000})});
+      rem.push_back(Op{OP_SLEEP, reach});
+    }
+    rem.push_back(Op{OP_REMOVE_LOGGER, priv_logger});
+    main_ops.insert(main_ops.begin() + static_cast<long>(rpos), rem.begin(), rem.end());
+    int const n = static_cast<int>(rr.range(1, 4));
+    for (int i = 0; i < n; ++i)
+    {
+      size_t const pos = rr.below(static_cast<uint32_t>(rpos + 1));
+      main_ops.insert(main_ops.begin() + static_cast<long>(pos),
+                      Op{OP_LOG, priv_logger, static_cast<int64_t>(rr.below(4)), rr.range(2, 8), static_cast<int64_t>(rr.next() >> 8),
+                         static_cast<int64_t>(rr.below(120)), 0});
+    }
+  }
   std::vector<Op> prefix;
   for (int t = nthreads; t < nthreads + nexited; ++t)
   {
